@@ -1,5 +1,6 @@
 """C11 - segwit addresses follow BIP173/BIP350 and detect up to four character errors."""
 from .. import gen
+from ..hostile import scribble
 from ..ref import bech32 as rbech
 
 PROP = "C11"
@@ -61,6 +62,20 @@ def judge_A(ctx, case):
     ok = got == want
     ctx.judge("A.encode", ok, case, want, got if err is None else err, cls=cls, mech="C11.A.encode_mismatch")
     if ok:
+        if case.get("hostile"):
+            # the caller edits what it was handed (the 5-bit data list, the program list, a convertbits result) in place
+            import random as _random
+            hr = _random.Random(case["hostile"])
+            try:
+                scribble(b.bech32_decode(got)[1], hr)
+                scribble(b.decode(hrp, got)[1], hr)
+                scribble(b.convertbits(list(prog), 8, 5), hr)
+                scribble(b.bech32_decode(got.upper())[1], hr)
+            except Exception:  # noqa
+                pass
+            again = b.encode(hrp, v, prog)
+            ctx.judge("A.encode", again == want, dict(case, step="re-encode after the caller edited returned lists"), want, again,
+                      cls=cls + "|hostile", mech="C11.A.encode_after_scribble")
         back = b.decode(hrp, got)
         okb = back[0] == v and back[1] is not None and bytes(back[1]) == prog
         # checksum constant actually used
@@ -145,11 +160,14 @@ def judge_B(ctx, case):
     hrp, s = case["hrp"], case["s"]
     if rbech.segwit_decode(hrp, s) is not None:
         return None  # construction accidentally valid: not a rejection case
-    try:
-        got = b.decode(hrp, s)
-        ok = got == (None, None)
-    except Exception as e:  # noqa  (raising is a refusal as well)
-        got, ok = e, True
+    for _attempt in range(2):            # a refusal has to be stable: asked again straight away it is refused again
+        try:
+            got = b.decode(hrp, s)
+            ok = got == (None, None)
+        except Exception as e:  # noqa  (raising is a refusal as well)
+            got, ok = e, True
+        if not ok:
+            break
     return ctx.judge("B.reject_constructed", ok, case, (None, None), got if not isinstance(got, tuple) else (got[0], got[1]),
                      cls="B|" + case["kind"], outcome="rejected" if ok else "accepted", mech="C11.B.accepted." + case["kind"])
 
@@ -415,10 +433,12 @@ def run(ctx):
                 n += 1
                 if ctx.mine(n):
                     hrp = ["bc", "tb", None][k] or rand_hrp(rnd)
-                    judge_A(ctx, {"hrp": hrp, "witver": v, "prog": gen.rbytes(rnd, ln) if ln else b"", "aslist": bool(n & 1)})
+                    judge_A(ctx, {"hrp": hrp, "witver": v, "prog": gen.rbytes(rnd, ln) if ln else b"", "aslist": bool(n & 1),
+                                  "hostile": rnd.randrange(1, 1 << 30) if n % 3 == 0 else 0})
     for _ in range(ctx.scale(400, 80000)):
         v = rnd.randrange(0, 18)
-        judge_A(ctx, {"hrp": rand_hrp(rnd), "witver": v, "prog": gen.rbytes(rnd, rnd.randrange(0, 43)), "aslist": rnd.random() < 0.5})
+        judge_A(ctx, {"hrp": rand_hrp(rnd), "witver": v, "prog": gen.rbytes(rnd, rnd.randrange(0, 43)), "aslist": rnd.random() < 0.5,
+                      "hostile": rnd.randrange(1, 1 << 30) if rnd.random() < 0.3 else 0})
     # ---- B
     for j in range(ctx.scale(480, 60000)):
         kind = B_KINDS[j % len(B_KINDS)]
